@@ -299,6 +299,10 @@ class SimHTTP(object):
         self.docs[url] = (data if isinstance(data, bytes) else data.encode("utf-8"), ctype)
 
     def urlopen(self, req, *a, **k):
+        # a fetch issued from a thread other than the caller's is parked until a later one has been let through first:
+        # concurrent downloads then complete in another order than they were submitted (no effect on the shipped code,
+        # which fetches from the calling thread only)
+        self.sim.fs._park_foreign_thread()
         url = req.full_url if hasattr(req, "full_url") else req
         idx = self.fetches
         self.fetches += 1
@@ -497,6 +501,49 @@ class _Writer(object):
         return getattr(self.real, name)
 
 
+class _GzipSeam(object):
+    """stands in for the `gzip` module inside shexer.io.line_reader.gz_line_reader: open() returns the real GzipFile
+    wrapped so that the armed read fault (SimFS.read_fault_left, counted in lines) also reaches .gz sources"""
+
+    def __init__(self, fs):
+        self.fs = fs
+
+    def open(self, path, mode="rb", *a, **k):
+        import gzip as real_gzip
+        real = real_gzip.open(path, mode, *a, **k)
+        return _GzLines(self.fs, real, path)
+
+    def __getattr__(self, name):
+        import gzip as real_gzip
+        return getattr(real_gzip, name)
+
+
+class _GzLines(object):
+    def __init__(self, fs, real, path):
+        self.fs, self.real, self.path = fs, real, path
+
+    def __enter__(self):
+        return self
+
+    def __exit__(self, *a):
+        self.real.close()
+
+    def __iter__(self):
+        fs = self.fs
+        for l in self.real:
+            if fs.read_fault_left == 0:
+                fs.read_fault_left = -1
+                fs.sim.faults["source_gz_" + fs.read_errno.lower()] += 1
+                fs.sim.log.add("read", "fault:" + fs.read_errno, os.path.basename(self.path))
+                raise OSError(getattr(errno, fs.read_errno), "simulated " + fs.read_errno)
+            if fs.read_fault_left > 0:
+                fs.read_fault_left -= 1
+            yield l
+
+    def __getattr__(self, name):
+        return getattr(self.real, name)
+
+
 class SimFS(object):
     # Writers that arrive on a thread other than the caller's are scheduled adversarially: a writer is parked until a
     # later one has arrived and been let through first (or a short real-time bound expires).  sheXer itself has no
@@ -632,7 +679,10 @@ class Sim(object):
     # ---- seams
     def __enter__(self):
         import shexer.io.sparql.query as q
+        import shexer.io.line_reader.gz_line_reader as gzr
         import shexer.io.line_reader.file_line_reader as flr
+        self._saved_gzip = gzr.gzip
+        gzr.gzip = _GzipSeam(self.fs)
         import shexer.io.shex.formater.shex_serializer as ss
         import shexer.core.instances.abstract_instance_tracker as ait
         import rdflib.parser as rp
@@ -660,7 +710,9 @@ class Sim(object):
 
     def __exit__(self, *a):
         import shexer.io.sparql.query as q
+        import shexer.io.line_reader.gz_line_reader as gzr
         import shexer.io.line_reader.file_line_reader as flr
+        gzr.gzip = self._saved_gzip
         import shexer.io.shex.formater.shex_serializer as ss
         import rdflib.parser as rp
         s = self._saved
